@@ -19,13 +19,20 @@ TEXT = {
     "C16.requests": "every function that queues a Transition{origin, dest, TYPE} logs recordTransition(context, origin, TYPE, dest) with the same constant and "
                     "destination; cancelPendingTransitions logs every cancellation (unconditionally, with the origin); succeed/fail log the task status; "
                     "updatePlan logs the plan status; select / utility / random resolutions log the chosen prong",
+    "C16.logger-identity": "the user's logger is reached through a pointer or reference everywhere: no library function takes, holds or returns a "
+                           "LoggerInterfaceT by value (a by-value copy is sliced to the interface class, whose record* members are the empty defaults, so the "
+                           "report never reaches the user's object); the interface-mode S_::log overloads either record exactly "
+                           "recordMethod(context, STATE_ID, method) on the logger they were handed, or (Empty::* overloads) nothing",
+    "C16.activity": "(STRUCTURE_REPORT) the per-state update of udpateActivity, evaluated over its whole input domain (isActive x every int8 counter value): "
+                    "active -> counter > 0 ? min(counter + 1, INT8_MAX) : +1; inactive -> counter < 0 ? max(counter - 1, INT8_MIN) : -1 "
+                    "(sign says active / inactive, magnitude counts consecutive updates and saturates)",
     "C16.detach": "every logger call is guarded by the logger pointer being non-null, and the logging statements write no machine state (attaching or "
                   "detaching a logger cannot change behaviour)",
     "C16.report": "(STRUCTURE_REPORT) every R_/RV_ member that may reach apex deepEnter / deepExit / deepChangeToRequested calls udpateActivity() after the last "
                   "such call on every path; udpateActivity visits all STATE_COUNT ids writing _structure[i].isActive := isActive(s) with i == s; getStateNames "
                   "runs in both constructors",
 }
-MIN_INSTANCES = {"C16.methods": 17, "C16.requests": 20, "C16.detach": 20, "C16.report": 5}
+MIN_INSTANCES = {"C16.activity": 1, "C16.logger-identity": 1, "C16.methods": 17, "C16.requests": 20, "C16.detach": 20, "C16.report": 5}
 
 METHOD_OF = {"deepEntryGuard": "ENTRY_GUARD", "deepEnter": "ENTER", "deepReenter": "REENTER", "deepPreUpdate": "PRE_UPDATE", "deepUpdate": "UPDATE",
              "deepPostUpdate": "POST_UPDATE", "deepPreReact": "PRE_REACT", "deepReact": "REACT", "deepPostReact": "POST_REACT", "deepQuery": "QUERY",
@@ -58,10 +65,124 @@ def check(ctx, F):
         check_methods(ctx, F)
         check_requests(ctx, F)
         check_detach(ctx, F)
+        check_logger_identity(ctx, F)
     else:
         ctx.note("unit %s compiled without the log interface" % F.label)
     if has_report(F):
         check_report(ctx, F)
+        check_activity(ctx, F)
+
+
+def check_logger_identity(ctx, F):
+    from .. import facts as factsmod
+    lib = factsmod.REPO.rstrip("/") + "/"
+
+    def is_logger(tid):
+        t = F.type(tid) if tid is not None else None
+        return bool(t) and (t.get("name") == "LoggerInterfaceT" or t.get("tmpl") == "LoggerInterfaceT")
+
+    scanned = 0
+    for fid, b in F.bodies.items():
+        if not b["inst"] or not (F.fn(fid).get("loc") or "").startswith(lib) or b.get("cls") == "LoggerInterfaceT":
+            continue
+        scanned += 1
+        where = "%s::%s" % (b.get("cls"), b["name"])
+        for p in b.get("params", []):
+            if is_logger(p.get("tid")) and not p.get("ref") and not p.get("ptr"):
+                ctx.violation("C16.logger-identity", "byvalue/%s/%d" % (where, len(b.get("params", []))), "%s (%s)" % (where, F.floc(fid)),
+                              "%s takes the logger by value: the copy is sliced to LoggerInterfaceT, whose record* members do nothing - the report "
+                              "never reaches the user's logger" % where, {})
+        for x in walk(b.get("body") or {}):
+            if x.get("k") == "decl":
+                for v in x.get("vars", []):
+                    if is_logger(v.get("tid")) and not v.get("ref") and not v.get("ptr"):
+                        ctx.violation("C16.logger-identity", "local/%s/%s" % (where, v.get("n")), "%s (%s)" % (where, F.floc(fid)),
+                                      "local `%s` is a by-value (sliced) copy of the logger" % v.get("n"), {})
+    ctx.instance("C16.logger-identity", "by-value scan", {"library_functions_scanned": scanned})
+    # interface mode: the S_::log overloads
+    for fid, b in insts(F, "S_", {"log"}):
+        sid = F.const(b["tid"], "STATE_ID")
+        site = "S_::log/%s" % ("const" if "const" in (b.get("params") or [{}])[0].get("t", "")[-12:] else "nonconst")
+        recs = []
+        others = []
+        for x in walk(b.get("body") or {}):
+            if x.get("k") == "call":
+                if "f" in x and F.fn(x["f"])["name"] == "recordMethod":
+                    o = strip(x.get("obj") or {})
+                    recs.append((o.get("n") if o.get("k") == "var" and o.get("d") == "param" else None,
+                                 [(strip(a).get("n"), strip(a).get("cv")) for a in x.get("a", [])]))
+                else:
+                    others.append(x)
+        ctx.instance("C16.logger-identity", site + ("/records" if recs else "/silent"), {"function": site, "loc": F.floc(fid)})
+        if recs:
+            ok = len(recs) == 1 and recs[0][0] == "logger" and len(recs[0][1]) == 3 and recs[0][1][0][0] == "context" and \
+                recs[0][1][1] == ("STATE_ID", sid) and recs[0][1][2][0] == "method"
+            if not ok or others:
+                ctx.violation("C16.logger-identity", site, "%s (%s)" % (site, F.floc(fid)),
+                              "log() records %s, expected exactly logger.recordMethod(context, STATE_ID, method)" % (recs,), {})
+
+
+def check_activity(ctx, F):
+    from .common import eval_expr, exec_stmt, NotEvaluable
+    for fid, b in insts(F, "R_", {"udpateActivity"}):
+        site = "R_::udpateActivity/counter"
+        loops = [x for x in walk(b["body"]) if x.get("k") == "for"]
+        if len(loops) != 1:
+            raise AnalysisBroken("%s: expected one loop over the states, found %d" % (site, len(loops)))
+        body = loops[0]["b"]
+        # the counter: a reference local bound to _activityHistory[...]
+        alias = None
+        for x in walk(body):
+            if x.get("k") == "decl":
+                for v in x["vars"]:
+                    if v.get("ref") and any(m.get("k") == "mem" and m.get("n") == "_activityHistory" for m in walk(v.get("init") or {})):
+                        alias = v["n"]
+
+        def is_counter(n):
+            n = strip(n)
+            if n.get("k") == "var" and n.get("n") == alias:
+                return True
+            return n.get("k") == "call" and n.get("op") == "[]" and any(m.get("k") == "mem" and m.get("n") == "_activityHistory" for m in walk(n))
+
+        def is_flag(n):
+            n = strip(n)
+            return n.get("k") == "mem" and n.get("n") == "isActive"
+
+        bad = None
+        try:
+            for active in (0, 1):
+                for a in range(-128, 128):
+                    cell = {"a": a}
+
+                    def leaf(n):
+                        if is_counter(n):
+                            return cell["a"]
+                        if is_flag(n):
+                            return active
+                        if strip(n).get("k") == "call" and "f" in strip(n) and F.fn(strip(n)["f"])["name"] == "isActive":
+                            return active
+                        raise NotEvaluable("`%s`" % _expr_txt(n))
+
+                    def store(lhs, val):
+                        if is_counter(lhs):
+                            cell["a"] = val
+                        elif is_flag(lhs):
+                            pass
+                        else:
+                            raise NotEvaluable("write to `%s`" % _expr_txt(lhs))
+                    env = {}
+                    for v in (loops[0].get("init") or {}).get("vars", []):
+                        env[v["n"]] = 0
+                    exec_stmt(body, env, leaf, store)
+                    want = (min(a + 1, 127) if a > 0 else 1) if active else (max(a - 1, -128) if a < 0 else -1)
+                    if cell["a"] != want and bad is None:
+                        bad = "isActive=%d, counter %d -> %d, expected %d" % (active, a, cell["a"], want)
+        except NotEvaluable as e:
+            raise AnalysisBroken("%s: the update is not a pure function of (isActive, counter): %s" % (site, e))
+        ctx.instance("C16.activity", site, {"function": site, "loc": F.floc(fid), "inputs_evaluated": 512})
+        if bad:
+            ctx.violation("C16.activity", site, "R_::udpateActivity (%s)" % F.floc(fid),
+                          "the counter update is wrong for %s (sign = active / inactive, magnitude counts consecutive updates up to saturation)" % bad, {})
 
 
 def enum_name(e):
